@@ -1321,6 +1321,15 @@ class Evaluator:
         return None
 
     def contains(self, container, item, node, fr):
+        if isinstance(item, PhiV):
+            a_, b_ = self.contains(container, item.a, node, fr), self.contains(container, item.b, node, fr)
+            if a_ is True and b_ is True:
+                return True
+            if a_ is False and b_ is False:
+                return False
+            ta = sp.true if a_ is True else sp.false if a_ is False else a_
+            tb = sp.true if b_ is True else sp.false if b_ is False else b_
+            return sp.Or(sp.And(item.cond, ta), sp.And(sp.Not(item.cond), tb))
         if isinstance(container, DictV):
             return self.key(item) in container.d
         if isinstance(container, (TupleV, ListV, SetV)):
